@@ -1,6 +1,7 @@
 package main
 
 import (
+	"regexp"
 	"bytes"
 	"context"
 	"fmt"
@@ -78,10 +79,93 @@ func (e *enc) smtDecls() string {
 // smtAsserts returns assumptions [from, to).
 func (e *enc) smtAsserts(from, to int) string {
 	var b strings.Builder
-	for _, a := range e.asserts[from:to] {
+	for i, a := range e.asserts[from:to] {
+		if e.dropAssert[from+i] {
+			continue
+		}
 		b.WriteString("(assert " + a + ")\n")
 	}
 	return b.String()
+}
+
+var storeDefRe = regexp.MustCompile(`^\(= \|([^|@]+)@\d+\| \(store \|([^|@]+)@\d+\| `)
+var arrNameRe = regexp.MustCompile(`\|([^|@]+)@\d+\|`)
+
+// sliceStores: in functions with very many heap writes (table initialisers) the single-store
+// definitions of array families no obligation can depend on are left out of the query (dropping an
+// assumption never makes a proof unsound). A family is needed if a goal or path mentions it, or if a
+// kept assertion that is not itself a store definition mentions it, or a kept store definition does.
+func (e *enc) sliceStores(obls []*Obl) {
+	e.dropAssert = nil
+	nStores := 0
+	for _, a := range e.asserts {
+		if storeDefRe.MatchString(a) {
+			nStores++
+		}
+	}
+	if nStores < 200 {
+		return
+	}
+	need := map[string]bool{}
+	addFrom := func(t string) bool {
+		ch := false
+		for _, m := range arrNameRe.FindAllStringSubmatch(t, -1) {
+			if !need[m[1]] {
+				need[m[1]] = true
+				ch = true
+			}
+		}
+		return ch
+	}
+	for _, o := range obls {
+		addFrom(o.Goal)
+		addFrom(o.Path)
+	}
+	isStore := make([]string, len(e.asserts))
+	fams := make([][]string, len(e.asserts))
+	for i, a := range e.asserts {
+		if m := storeDefRe.FindStringSubmatch(a); m != nil && m[1] == m[2] {
+			isStore[i] = m[1]
+		}
+		seen := map[string]bool{}
+		for _, m := range arrNameRe.FindAllStringSubmatch(a, -1) {
+			if !seen[m[1]] {
+				seen[m[1]] = true
+				fams[i] = append(fams[i], m[1])
+			}
+		}
+	}
+	// cone of influence over array families: an assertion that touches a needed family makes the
+	// other families it mentions needed as well
+	for changed := true; changed; {
+		changed = false
+		for i := range e.asserts {
+			touches := false
+			for _, f := range fams[i] {
+				if need[f] {
+					touches = true
+				}
+			}
+			if isStore[i] != "" {
+				touches = need[isStore[i]]
+			}
+			if !touches {
+				continue
+			}
+			for _, f := range fams[i] {
+				if !need[f] {
+					need[f] = true
+					changed = true
+				}
+			}
+		}
+	}
+	e.dropAssert = map[int]bool{}
+	for i := range e.asserts {
+		if isStore[i] != "" && !need[isStore[i]] {
+			e.dropAssert[i] = true
+		}
+	}
 }
 
 type SolverCfg struct {
@@ -140,6 +224,7 @@ func parseResults(out string, n int) ([]string, []string) {
 // discharge runs all obligations of an encoded function. Fast path: one incremental z3-new session;
 // everything not unsat is retried alone with the whole portfolio.
 func discharge(e *enc, dir string, idx int, timeoutMs int, obls []*Obl) {
+	e.sliceStores(obls)
 	if len(obls) == 0 {
 		return
 	}
